@@ -9,6 +9,10 @@ from . import lang
 from .lang import CMP_OPS
 from .rng import Chooser
 
+_CMPFOLD = {
+    "==": lambda a, b: a == b, "!=": lambda a, b: a != b, "<": lambda a, b: a < b,
+    "<=": lambda a, b: a <= b, ">": lambda a, b: a > b, ">=": lambda a, b: a >= b,
+}
 _PYFOLD = {
     "+": lambda a, b: a + b,
     "-": lambda a, b: a - b,
@@ -279,6 +283,16 @@ class ScalarGen:
                 return _PYFOLD[e[1]](a, b)
             except (ZeroDivisionError, OverflowError, ValueError):
                 return None
+        if k == "bin" and e[1] in _CMPFOLD:
+            a, b = self._cval(e[2]), self._cval(e[3])
+            if a is None or b is None:
+                return None
+            return int(_CMPFOLD[e[1]](a, b))
+        if k == "sel":
+            c_ = self._cval(e[1])
+            if c_ is None:
+                return None
+            return self._cval(e[2]) if c_ else 0
         return None
 
     def _domain_guard(self, e):
@@ -574,6 +588,8 @@ def in_claimed_domain(stmts) -> bool:
             a, b = cval(e[2]), cval(e[3])
             if a is None or b is None:
                 return None
+            if e[1] in _CMPFOLD:
+                return int(_CMPFOLD[e[1]](a, b))
             if e[1] not in _PYFOLD:
                 return None
             good = lo <= a <= hi and lo <= b <= hi
@@ -590,6 +606,17 @@ def in_claimed_domain(stmts) -> bool:
                 ok[0] = False
                 return None
             return folded
+        if k == "bin" and e[1] in _CMPFOLD:
+            a, b = cval(e[2]), cval(e[3])
+            if a is None or b is None:
+                return None
+            return int(_CMPFOLD[e[1]](a, b))
+        if k == "sel":
+            c_ = cval(e[1])
+            if c_ is None:
+                cval(e[2])
+                return None
+            return cval(e[2]) if c_ else 0
         for x in e[1:]:
             if isinstance(x, list):
                 cval(x)
